@@ -79,6 +79,11 @@ func classifyPath(p *Path, classify classifyFn) pathRow {
 	row := pathRow{P: p, Atoms: map[string]bool{}}
 	for _, d := range p.Decisions {
 		cond, neg := stripNot(d.Cond)
+		if f := forwardLocalLoad(cond); f != cond {
+			var n2 bool
+			cond, n2 = stripNot(f)
+			neg = neg != n2
+		}
 		// a branch on a boolean phi (`flag := a > b` on one arm, `a < b` on the other): use the value selected on this path
 		for i := 0; i < 3; i++ {
 			phi, ok := cond.(*ssa.Phi)
